@@ -115,11 +115,15 @@ def _summarise(res, h, params, validate):
             bad = [o for o in cc.obligations if o.status != "discharged"]
             d["validated"] = 1
             if bad and nice:
-                d["validation_mismatch"] = dict(kind="obligation", obligation=bad[0].name, detail=bad[0].detail[:300], model=res.witness)
+                # the solver's witness of this path, replayed on the real code without any stub, breaks the obligation concretely:
+                # that is a reproduced counterexample (the symbolic run only missed it because the failing code sits behind a stub)
+                d["violations"].append(dict(obligation=bad[0].name, detail="path witness replayed on the unstubbed real code: " + bad[0].detail[:300], model=res.witness,
+                                            replay=dict(reproduced=True, why="path witness replayed on the unstubbed real code: " + bad[0].detail[:300])))
             elif bad:
                 d["validated"] = 0  # ill-conditioned witness (knife-edge values): float replay is not meaningful
         elif st == "exception" and nice:
-            d["validation_mismatch"] = dict(kind="exception", detail=repr(exc)[:300], model=res.witness)
+            d["violations"].append(dict(obligation="no-exception", detail="path witness replayed on the unstubbed real code raised " + repr(exc)[:300], model=res.witness,
+                                        replay=dict(reproduced=True, why="real code raised " + repr(exc)[:300])))
         elif st == "abort":
             d["validated"] = 0  # knife-edge witness (assumption fails in float arithmetic)
     return d
@@ -301,7 +305,10 @@ def run_property(pid: str, tier: str, only=None, verbose=False) -> int:
                 pending[fut] = ("direct", h.name, None)
                 continue
             plist = h.quick if tier == "quick" else h.thorough
+            flt = os.environ.get("VERIF_FILTER")  # development aid: run only the parameter sets whose repr contains this text
             for pi in range(len(plist)):
+                if flt and flt not in repr(plist[pi]):
+                    continue
                 queue.append((h.name, pi, []))
                 stats[(h.name, pi)] = Counter()
         # serialise prefixes as tuples
